@@ -15,7 +15,7 @@ import lib
 import l2
 
 PAR = 6
-SHOOT_TIMEOUT = 12
+SHOOT_TIMEOUT = 25
 
 DIAG_PATTERNS = [
     ("DWorkDir", r"working dir not exists"),
@@ -238,6 +238,8 @@ def token_deletion(rng, case, layout):
             continue
         if case.sub == "map" and line.startswith("func "):
             continue
+        if line.startswith("package "):
+            continue          # a file without package clause + -file is the open finding K_testfile_no_package_clause
         toks.append(m)
     if not toks:
         return None
@@ -373,6 +375,10 @@ def witnesses():
     ]
     w["K_rename_fail_after_write"] = [
         _case("new", ["new", "-type=A,B"], [_file("a.go", two)], extra={"a.shootnew.b.go": ("dir",)}),
+    ]
+    w["K_testfile_no_package_clause"] = [
+        _case("new", ["new", "-file=a.go"], [_file("a.go", [_struct("A", [F.Field(["x"], F.tid("int"))])]), _raw_file("empty.go", "", pkg="")]),
+        _case("enum", ["enum", "-file=e.go"], _enum_pkg([]) + [_raw_file("zz_todo.go", "// TODO\n", pkg="")]),
     ]
     # ---- repaired defects: the model describes the repaired code
     w["K_clean_error_after_write"] = [
@@ -512,7 +518,7 @@ def site_census():
     return n
 
 
-CENSUS_EXPECTED = len(SITES) - 1 + 2      # the table above without the flag row, plus logx.go's own two log.Fatal calls
+CENSUS_EXPECTED = len(SITES) - 2 + 2      # the table above without the flag row, plus logx.go's own two log.Fatal calls
 
 
 def describe(case, o, layout):
@@ -652,7 +658,8 @@ def body(run, proof_ok):
         "K_rename_fail_after_write) are proved as refutations and replayed on every run",
         "C18_always_a_deliberate_exit assumes a well-founded embedding relation and function declarations with named "
         "parameters/receivers, bodies and accessor arities (open findings K_ctor_self_embed, K_map_self_embed, "
-        "K_map_unnamed_names, K_map_accessor_arity, K_map_nil_body); the comparison stream stays inside these guards",
+        "K_map_unnamed_names, K_map_accessor_arity, K_map_nil_body) and a package clause in every Go file "
+        "(K_testfile_no_package_clause); the comparison stream stays inside these guards",
         "partial: packages.Load on syntactically broken input and the text produced by the templates are not modelled",
     ])
 
